@@ -23,6 +23,8 @@ type Spec struct {
 	HandlerFails string `json:"handler_fails,omitempty"` // success | fail | finally
 	Bound    int    `json:"bound"`
 	Split    bool   `json:"split,omitempty"` // large program: its schedule tree is divided among all workers
+	// Wrapped: the try block runs inside a named pipeline "guarded"; a pipeline "dependent" waits for it
+	Wrapped bool `json:"inside_pipeline_with_dependent,omitempty"`
 }
 
 func (s Spec) name() string {
@@ -39,6 +41,9 @@ func (s Spec) name() string {
 	n := s.Body + "/" + h
 	if s.HandlerFails != "" {
 		n += "/" + s.HandlerFails + "-fails"
+	}
+	if s.Wrapped {
+		n += "/inside-pipeline-with-dependent"
 	}
 	return n
 }
@@ -104,6 +109,11 @@ func script(s Spec) string {
 	}
 	if s.Finally {
 		line += ` --finally="` + h("finally") + `"`
+	}
+	if s.Wrapped {
+		// the try block sits inside a named pipeline, and a second pipeline waits for that one: a
+		// contained body failure does not make the enclosing pipeline a failed prerequisite
+		return "pip:run --name=guarded --body=<<EOB\n" + line + "\nEOB\npip:run --name=dependent --wait=guarded --body=\"probe --id=dependent.c1\"\nprobe --id=after.c1\n"
 	}
 	return line + "\nprobe --id=after.c1\n"
 }
@@ -203,6 +213,9 @@ func judge(sp Spec, o *obs) func(x *explore.Exec) *explore.Verdict {
 		if handlerFailed && o.rootErr == 0 {
 			return v("handler-failure-lost", "a failing handler marks the surrounding scope as failed", "handler %s failed but the surrounding scope holds no error", sp.HandlerFails)
 		}
+		if sp.Wrapped && !handlerFailed && !ran("dependent") {
+			return v("dependent-of-enclosing-pipeline-refused", "a failing body does not mark the surrounding scope as failed - only a failing handler does", "the pipeline that waits for the pipeline enclosing the try block did not run although no handler failed")
+		}
 		// the script goes on after the try block unless the surrounding scope failed
 		if !handlerFailed && !ran("after") {
 			return v("script-stopped-after-try", "a failing body does not mark the surrounding scope as failed", "the command after the try block did not run")
@@ -242,6 +255,11 @@ func programs(thorough bool) []Spec {
 			}
 			ps = append(ps, s)
 		}
+	}
+	// the try block inside a named pipeline that another pipeline waits for
+	for _, body := range []string{"ok", "fail1", "append"} {
+		ps = append(ps, Spec{Body: body, Success: true, Fail: true, Finally: true, Wrapped: true, Bound: 0},
+			Spec{Body: body, Fail: true, Wrapped: true, Bound: 0})
 	}
 	for _, hf := range []string{"success", "fail", "finally"} {
 		for _, body := range []string{"ok", "fail1"} {
@@ -323,7 +341,7 @@ func replay(wj json.RawMessage) (*fw.Violation, error) {
 
 func init() {
 	fw.Register(&fw.Check{ID: "C16", Level: "model_checking",
-		Rule: "programs = body {succeeds, fails at command 1 / 2, appends an error, names an unknown command, breaks off inside a quoted argument, stops its scope and then fails, kills its scope without returning an error, spawns a nested task that succeeds / fails, in the self sandbox or in a sandbox that reports failure only through its return value, or two concurrent tasks one of which fails} x every subset of {success, fail, finally} handlers x one failing handler; the script `pip:try ...` followed by another command is fed to the real terminal loop of a mock application bootstrapped per execution, probe commands log begin/end; every schedule within the bound (quick: free context switches at blocking points; thorough: 1 preemption, nested bodies free switches only) with a happens-before state cache; oracle: which handlers ran, handler begin after the end of the body and of every task it spawned, error state of the surrounding scope, the script continuing after the block, no panic, no deadlock; for programs with a failing handler additionally reachability over the explored schedule set: some schedule runs the finally handler (resp. the matching handler when finally is the failing one). states = distinct schedule traces",
+		Rule: "programs = body {succeeds, fails at command 1 / 2, appends an error, names an unknown command, breaks off inside a quoted argument, stops its scope and then fails, kills its scope without returning an error, spawns a nested task that succeeds / fails, in the self sandbox or in a sandbox that reports failure only through its return value, or two concurrent tasks one of which fails} x every subset of {success, fail, finally} handlers x one failing handler; the script `pip:try ...` followed by another command is fed to the real terminal loop of a mock application bootstrapped per execution, probe commands log begin/end; every schedule within the bound (quick: free context switches at blocking points; thorough: 1 preemption, nested bodies free switches only) with a happens-before state cache; oracle: which handlers ran, handler begin after the end of the body and of every task it spawned, error state of the surrounding scope, the script continuing after the block, no panic, no deadlock; for programs with a failing handler additionally reachability over the explored schedule set: some schedule runs the finally handler (resp. the matching handler when finally is the failing one). states = distinct schedule traces; plus 6 programs in which the try block runs inside a named pipeline that a second pipeline waits for (a contained body failure does not make the enclosing pipeline a failed prerequisite)",
 		Run: run, Replay: replay,
 		Assumptions: []string{"the finally handler is submitted first; when it fails the remaining handlers are not started (the handler failure is what is reported)", "accesses to objects outside the focus packages do not order executions in the happens-before cache (declared reduction)"}})
 }
